@@ -186,7 +186,7 @@ struct BfsResult {
     sample: Vec<String>,
 }
 
-fn bdd_bfs(atoms: &[Atom], max_rounds: usize, out: &mut Out) -> BfsResult {
+fn bdd_bfs(atoms: &[Atom], max_rounds: usize, linear_rounds: usize, out: &mut Out) -> BfsResult {
     let k = atoms.len();
     let full: u32 = if k == 5 { u32::MAX } else { (1u32 << (1u32 << k)) - 1 };
     let mut seen: BTreeSet<Bdd> = BTreeSet::new();
@@ -216,11 +216,18 @@ fn bdd_bfs(atoms: &[Atom], max_rounds: usize, out: &mut Out) -> BfsResult {
     let mut done = 0usize;
     let mut rounds = 0usize;
     let mut sample = vec![];
+    let mut base_n = 0usize; // states known after the first full round: the operands of the linear rounds
     loop {
         let n = all.len();
-        if done == n || rounds >= max_rounds {
+        if done == n || rounds >= max_rounds + linear_rounds {
             break;
         }
+        if rounds == 1 {
+            base_n = n;
+        }
+        // linear rounds (after the full ones): every NEW state is combined, in both operand orders, with the small base
+        // set only - chains of operations three and four deep stay enumerable where the full product does not
+        let linear = rounds >= max_rounds;
         // a broken operation makes the reachable set grow without bound: once violations are on record (or the set is
         // far beyond any closure seen on a correct implementation) the search of this configuration stops
         if out.seen_keys.values().sum::<usize>() > 200 || n > 400_000 {
@@ -237,6 +244,9 @@ fn bdd_bfs(atoms: &[Atom], max_rounds: usize, out: &mut Out) -> BfsResult {
             for j in jstart..n {
                 if i < done && j < done {
                     continue; // pair already explored in an earlier round
+                }
+                if linear && !((i >= done && j < base_n) || (j >= done && i < base_n)) {
+                    continue;
                 }
                 let (a, ta) = (all[i].0.clone(), all[i].1);
                 let (b, tb) = (all[j].0.clone(), all[j].1);
@@ -619,33 +629,33 @@ fn c06(tier: &str, _seed: u64) -> Value {
     let thorough = tier == "thorough";
     // layer 1
     let mut configs = vec![];
-    let alph: Vec<(Vec<Atom>, usize)> = {
-        let mut v: Vec<(Vec<Atom>, usize)> = vec![
-            (vec![Atom::List(0)], 99),
-            (vec![Atom::Mapping(0), Atom::Mapping(1)], 99),
-            (vec![Atom::Mapping(0), Atom::List(0)], 99),
-            (vec![Atom::List(1), Atom::List(0)], 99),
-            (vec![Atom::List(0), Atom::List(1), Atom::List(2)], if thorough { 4 } else { 3 }),
-            (vec![Atom::Mapping(0), Atom::Mapping(1), Atom::List(0)], 3),
+    let alph: Vec<(Vec<Atom>, usize, usize)> = {
+        let mut v: Vec<(Vec<Atom>, usize, usize)> = vec![
+            (vec![Atom::List(0)], 99, 0),
+            (vec![Atom::Mapping(0), Atom::Mapping(1)], 99, 0),
+            (vec![Atom::Mapping(0), Atom::List(0)], 99, 0),
+            (vec![Atom::List(1), Atom::List(0)], 99, 0),
+            (vec![Atom::List(0), Atom::List(1), Atom::List(2)], if thorough { 4 } else { 3 }, 0),
+            (vec![Atom::Mapping(0), Atom::Mapping(1), Atom::List(0)], 3, 1),
         ];
         if thorough {
-            v.push((vec![Atom::Mapping(0), Atom::List(0), Atom::Map(0)], 2));
-            v.push((vec![Atom::Mapping(0), Atom::Mapping(1), Atom::Mapping(2), Atom::Mapping(3)], 2));
-            v.push((vec![Atom::Mapping(0), Atom::List(0), Atom::Map(0), Atom::Set(0)], 2));
+            v.push((vec![Atom::Mapping(0), Atom::List(0), Atom::Map(0)], 2, 0));
+            v.push((vec![Atom::Mapping(0), Atom::Mapping(1), Atom::Mapping(2), Atom::Mapping(3)], 2, if thorough { 3 } else { 2 }));
+            v.push((vec![Atom::Mapping(0), Atom::List(0), Atom::Map(0), Atom::Set(0)], 2, 0));
         } else {
-            v.push((vec![Atom::Mapping(0), Atom::Mapping(1), Atom::Mapping(2), Atom::Mapping(3)], 2));
+            v.push((vec![Atom::Mapping(0), Atom::Mapping(1), Atom::Mapping(2), Atom::Mapping(3)], 2, if thorough { 3 } else { 2 }));
         }
         v
     };
     let mut states = 0usize;
     let mut transitions = 0u64;
     let mut samples = vec![];
-    for (atoms, rounds) in &alph {
-        let r = bdd_bfs(atoms, *rounds, &mut out);
+    for (atoms, rounds, linear) in &alph {
+        let r = bdd_bfs(atoms, *rounds, *linear, &mut out);
         states += r.states;
         transitions += r.transitions;
         samples.extend(r.sample.iter().cloned());
-        configs.push(json!({"atoms": format!("{:?}", atoms), "states": r.states, "transitions": r.transitions, "closed": r.closed, "rounds": r.rounds}));
+        configs.push(json!({"atoms": format!("{:?}", atoms), "states": r.states, "transitions": r.transitions, "closed": r.closed, "rounds": r.rounds, "linear_rounds": linear}));
     }
     // layer 2
     let d = defs();
